@@ -1033,6 +1033,7 @@ class PyCdlib:
         parent_links = []
         child_links = []
         lastbyte = 0
+        seen_dir_extents = set([root_dir_record.extent_location()])
         dirs = collections.deque([root_dir_record])
         while dirs:
             dir_record = dirs.popleft()
@@ -1169,6 +1170,11 @@ class PyCdlib:
                         # record in the parent_links list for later linking.
                         parent_links.append(new_record)
                     if not dots and not rr_cl:
+                        if new_record.extent_location() in seen_dir_extents:
+                            # A directory that is its own ancestor (or is
+                            # reachable twice) would make us walk forever.
+                            raise pycdlibexception.PyCdlibInvalidISO('Directory extent is referenced by more than one directory record')
+                        seen_dir_extents.add(new_record.extent_location())
                         dirs.append(new_record)
                         new_record.set_ptr(extent_to_ptr[new_extent_loc])
 
@@ -2102,6 +2108,7 @@ class PyCdlib:
                                                 None)
 
         empty_file_inodes = {}  # type: Dict[int, inode.Inode]
+        seen_udf_dir_extents = set([abs_file_entry_extent])
         udf_file_entries = collections.deque([self.udf_root])
         while udf_file_entries:
             udf_file_entry = udf_file_entries.popleft()
@@ -2155,6 +2162,11 @@ class PyCdlib:
                     next_entry.file_ident = file_ident
 
                     if file_ident.is_dir():
+                        if abs_file_entry_extent in seen_udf_dir_extents:
+                            # A directory that is its own ancestor (or is
+                            # reachable twice) would make us walk forever.
+                            raise pycdlibexception.PyCdlibInvalidISO('UDF directory File Entry is referenced more than once')
+                        seen_udf_dir_extents.add(abs_file_entry_extent)
                         udf_file_entries.append(next_entry)
                     else:
                         if next_entry.get_data_length() > 0:
